@@ -53,6 +53,19 @@ Theorem C05_plain_when_free s l : lookup (join_us (site_segs s)) l = None ->
 Proof. exact (invent_plain s l). Qed.
 Print Assumptions C05_plain_when_free.
 
+(* 2c. the model's claim "every site hands avoid=module.namespace to flatname" is the regenerated table of the flatname
+       calls in hdl21/elab/passes/*.py (tools/translators/05_c05_sites.py), and the table lists no call outside the five sites *)
+Theorem C05_sites_pass_namespace s : site_avoids Repaired s = table_avoids (site_func s) /\ table_avoids (site_func s) = true.
+Proof. split; [exact (sites_table s)|rewrite <- sites_table; destruct s; reflexivity]. Qed.
+Print Assumptions C05_sites_pass_namespace.
+
+Theorem C05_sites_table_complete :
+  forallb (fun c => existsb (fun f => String.eqb (fst (fst c)) (fst f) && String.eqb (snd (fst c)) (snd f))
+                            [site_func (SPortRef "" ""); site_func (SNoConn None "" ""); site_func (SFlatMember "" "");
+                             site_func (SArrayElem "" 0); site_func (SPairMember "" "")]) Hdl21Gen.C05Sites.c05_flatname_calls = true.
+Proof. exact sites_table_complete. Qed.
+Print Assumptions C05_sites_table_complete.
+
 (* 3. one pass step: the inserted object is APPENDED under a new key; every existing binding is kept *)
 Theorem C05_no_overwrite l s o l' inv : step l (OpInvent s o) = Ok (l', inv) ->
   exists n, inv = [n] /\ lookup n l = None /\ l' = l ++ [(n, o)] /\
